@@ -274,6 +274,8 @@ func checkDoc(c *hc.Ctx, fonts []*canvas.FontFamily, ref []*canvas.Font, spec do
 	fail := func(kind, desc string) { failK(c, kind, desc, spec) }
 	var buf bytes.Buffer
 	var exp []expSpan
+	var placement []string
+	nVertPath := 0
 	usedH, usedV := map[*canvas.Font]bool{}, map[*canvas.Font]bool{}
 	if msg := hc.Try(func() {
 		cv := canvas.New(210, 297)
@@ -285,6 +287,16 @@ func checkDoc(c *hc.Ctx, fonts []*canvas.FontFamily, ref []*canvas.Font, spec do
 				if span.IsText() {
 					v := span.Direction == canvasText.TopToBottom || span.Direction == canvasText.BottomToTop
 					exp = append(exp, expSpan{span.Face.Font, span.Glyphs, v, k, span.Width, span.Face.MmPerEm})
+					if span.Face.FauxBold == 0 && span.Face.FauxItalic == 0 && !dirty[it.fontIdx] {
+						// what RenderAsPath draws for this span: every outline at face offset + prefix sums of the
+						// laid-out advances (x and y), judged against the pristine copy of the font
+						if bad := spanPathPlacement(span, ref[it.fontIdx].SFNT); bad != "" {
+							placement = append(placement, fmt.Sprintf("item %d (%s) span %q: %s", k, it.Kind, span.Text, bad))
+						}
+						if v {
+							nVertPath++
+						}
+					}
 					if v {
 						usedV[span.Face.Font] = true
 					} else {
@@ -305,6 +317,10 @@ func checkDoc(c *hc.Ctx, fonts []*canvas.FontFamily, ref []*canvas.Font, spec do
 		return
 	}
 	c.Evals++
+	c.Hist["pdf:vertical span path placement judged"] += nVertPath
+	for _, bad := range placement {
+		fail("topath-placement", bad)
+	}
 	// the recorded defect class: one font object pair shares one subsetter that is reset
 	resetClass := ""
 	for f := range usedV {
@@ -616,4 +632,38 @@ func lendTables(emb []byte, src *font.SFNT, tags ...string) []byte {
 		}
 	}
 	return out
+}
+
+// spanPathPlacement runs the real toPath on a laid-out span and compares with the outlines of the
+// pristine font placed at offset + prefix sums of ALL glyph advances (whitespace included).
+func spanPathPlacement(span canvas.TextSpan, src *font.SFNT) string {
+	face := span.Face
+	p, _, err := canvas.VerifC18ToPath(face, span.Glyphs, face.PPEM(canvas.DefaultResolution))
+	if err != nil {
+		return "toPath: " + err.Error()
+	}
+	exp := &canvas.Path{}
+	f := face.MmPerEm
+	x, y := int64(face.XOffset), int64(face.YOffset)
+	spaces := 0
+	for _, g := range span.Glyphs {
+		own := &canvas.Path{}
+		src.GlyphPath(own, g.ID, 0, 0, 0, 1, font.NoHinting)
+		if len(own.Data()) == 0 {
+			spaces++
+		}
+		src.GlyphPath(exp, g.ID, 0, f*float64(x+int64(g.XOffset)), f*float64(y+int64(g.YOffset)), f, font.NoHinting)
+		x += int64(g.XAdvance)
+		y += int64(g.YAdvance)
+	}
+	a, b := p.Data(), exp.Data()
+	if len(a) != len(b) {
+		return fmt.Sprintf("path has %d values, expected %d", len(a), len(b))
+	}
+	for i := range a {
+		if math.Abs(a[i]-b[i]) > 1e-9*(1+math.Abs(b[i])) {
+			return fmt.Sprintf("path value %d is %v, outline at the summed advances gives %v (%d glyphs, %d without outline)", i, a[i], b[i], len(span.Glyphs), spaces)
+		}
+	}
+	return ""
 }
